@@ -20,7 +20,7 @@ PROPS = {
     'C08': ['S0', 'S3', 'S4', 'S5', 'R2', 'R3', 'H8', 'L6', 'L3', 'O1', 'Q1', 'R6', 'F2', 'S10', 'R10', 'F6', 'S7', 'R8', 'I0', 'I1s', 'I1r'],
     'C09': ['L4', 'L2', 'L1', 'L5', 'G5', 'G7', 'G2', 'G3', 'G6', 'S0', 'R0', 'S1', 'S2', 'S3', 'S4', 'S5', 'S6', 'R1', 'R2', 'R3', 'R4', 'R5', 'R6', 'R7', 'F1', 'F2', 'F3', 'F6', 'H5', 'O1', 'G8', 'P1', 'P2', 'F7', 'F4', 'F5', 'F8', 'I0', 'I1s', 'I1r', 'I1h', 'L7', 'H4', 'Q1'],
     'C10': ['L5', 'S1', 'R1', 'H6', 'L6', 'L1', 'L2', 'O1', 'S6', 'G3', 'G5', 'G6', 'F2', 'F6', 'G8', 'I6', 'I1s', 'I1r', 'I1c', 'I1h', 'S5', 'R7', 'S8', 'R10'],
-    'C11': ['L1', 'L2', 'R5', 'S1', 'S6', 'L6', 'H6', 'O1', 'G3', 'G5', 'G6', 'F2', 'F6', 'L3', 'L4', 'G8', 'I6', 'I1s', 'I1r', 'I1h', 'S5', 'R7', 'S8', 'R10', 'F9', 'L7'],
+    'C11': ['L1', 'L2', 'R5', 'S1', 'S6', 'L6', 'H6', 'O1', 'G3', 'G5', 'G6', 'F2', 'F6', 'L3', 'L4', 'G8', 'I6', 'I1s', 'I1r', 'I1h', 'S5', 'R7', 'S8', 'R10', 'F9', 'L7', 'F7'],
     'C12': ['L1', 'L2', 'L3', 'L4', 'L5', 'L6', 'H8', 'O1', 'I1c', 'I1h', 'L7'],
     'C13': ['S7', 'R8', 'S6', 'S8', 'R10', 'S10', 'G6', 'H4', 'S5', 'R7', 'G3', 'S4', 'R6', 'G8', 'I1s', 'I1r'],
     'C14': ['W1', 'S9', 'M3', 'H1', 'S5', 'R7', 'R9', 'S1', 'R1', 'S3', 'I1s', 'I1r', 'I1d'],
